@@ -192,6 +192,17 @@ def replay_path(args):
     if not real.rec.acct.ok():
         bad("C17", "foreign-suspension", len(path), {"acct": real.rec.acct.describe()})
     # C04: closing the handle (even if never advanced) closes the source and never fails
+    if not out and "C05" in props and any(o == "gb" for o, _ in history_of(path)):
+        # closing a group -- live or stale -- is no reason to read on: the source is not advanced by it
+        fresh = GBSys(data, keyfl)
+        for op, g, *_ in (e["a"] for e in path):
+            fresh.op(op, g)
+        before = fresh.counts()
+        r = Task(fresh.groups[-1].aclose(), fresh.rec.acct).run() if fresh.groups else ("done", None)
+        if r[0] == "raised":
+            bad("C05", "closing-a-group-raises", len(path), {"observed": repr(r[1])})
+        elif fresh.counts() != before:
+            bad("C05", "closing-a-group-advances-the-source", len(path), {"expected": before, "observed": fresh.counts()})
     if not out and "C04" in props:
         # on a fresh replay of the same history (the drain above has used the first one up): closed where it stands
         for noclose in (False, True):
